@@ -217,9 +217,7 @@ pub fn check_model(h: &CaseH, m: &Model, exact: bool) -> Verdict {
         if setback {
             h.class("setback");
             if wall.geometry.tilt != 90.0 {
-                // known finding C13: jamb reveals of non-vertical walls are misplaced by the library
-                h.class("setback/non-vertical-wall(not asserted)");
-                continue;
+                h.class("setback/non-vertical-wall");
             }
             if !frame_ok(wall) {
                 h.class("setback/frame-ambiguous(not asserted)");
@@ -449,7 +447,7 @@ fn lone_cases() -> Vec<LoneCase> {
 pub fn run(args: &Args) -> ! {
     let ctx = Ctx::new("C12", "exploration", args);
     ctx.rule("scenes: generated buildings of 1-3 prism spaces (rotated footprints, all orientations and odd tilts, windows with and without setback / position) with 0-6 random shades, optionally 30-90 more shades near the building (so that the acceleration structure runs below, at and above its leaf size), x zones; oracle: per July design-day hour, exact f64 ray/polygon tests (1 mm band => interval) from the library's sample points towards the sun against other exterior/adiabatic walls, shades and the window's own reveal quads built from first principles, weighted with radiation_for_surface on the window plane; bounds; windows without position = 1; metamorphic: one more wall or shade never raises any factor. lone: 32 zones x 10 poses x {nothing, huge screen 5 cm in front} (exhaustive): >= 0.97 / diffuse share only. shipped models: bounds only (hundreds of obstacles: exact oracle on a sample of windows in the thorough tier). Non-trivial: scene with a window that is partially shaded at some hour.");
-    ctx.assume("sample points, July tables and radiation_for_surface are inputs here (C20 checks the last two); set-back windows on non-vertical walls are not asserted (known finding of C13)");
+    ctx.assume("sample points, July tables and radiation_for_surface are inputs here (C20 checks the last two)");
     ctx.replay_regressions(replay_one);
     let real = shipped_models();
     ctx.run_enum("shipped", &real.iter().map(|(n, _)| n.clone()).collect::<Vec<_>>(), true, |h, name| {
